@@ -96,7 +96,22 @@ def concretize(v, model, depth=0):
 
 
 def model_inputs(ctx, model):
-    return {name: smt.model_value(model, cst) for name, cst in ctx.inputs.items()}
+    out = {name: smt.model_value(model, cst) for name, cst in ctx.inputs.items()}
+    if ctx.map_inputs:
+        # a symbolic map is read from the model at the relevant keys: every string the model gives to a
+        # scalar input plus every literal key the code / contract used
+        keys = set(ctx.key_literals)
+        for v in out.values():
+            if isinstance(v, str):
+                keys.add(v)
+        for name, (dom, val) in ctx.map_inputs.items():
+            d = {}
+            for k in sorted(keys):
+                kz = z3.StringVal(k)
+                if smt.model_value(model, z3.Select(dom, kz)) is True:
+                    d[k] = smt.model_value(model, z3.Select(val, kz))
+            out[name] = d
+    return out
 
 
 def _comparable(v):
@@ -134,7 +149,7 @@ def native_run(target, inputs, choices):
         externs = target.externs(ctx, st)
         with target.patched(externs):
             out = target.run_native(ctx, st)
-        clauses = list(target.ensures(ctx, st, out))
+            clauses = list(target.ensures(ctx, st, out))     # evaluated under the same patched externs
         return ctx, st, out, clauses
     finally:
         set_current_ctx(None)
@@ -339,6 +354,18 @@ def _cross_check(target, rep, res, pid):
         problems.append("events: symbolic %r vs native %r" % (sev, nev))
     extra = target.cross_compare(ctx, res.state, nctx, nst, model, concretize)
     problems.extend(extra or [])
+    # a clause that is FALSE natively on a witness of this path must not have been proved for this path
+    false_native = {label for label, v in nclauses if v is False}
+    if false_native:
+        by_label = {}
+        for ob in rep.obligations:
+            if ob.path == pid:
+                by_label.setdefault(target.native_label(ob.label), []).append(ob.status)
+        for label in sorted(false_native):
+            sts = by_label.get(label)
+            if sts and all(x == 'discharged' for x in sts):
+                problems.append("clause %r is false on the real code for this path's witness although every symbolic "
+                                "instance of it was discharged (contract symbolic/native mismatch or unsound engine)" % label)
     if problems:
         rep.cross_disagreements.append({"path": pid, "problems": problems, "inputs": inputs,
                                         "choices": dict(ctx.choices)})
@@ -436,7 +463,7 @@ def replay_obligation(target, ob):
     vals = {}
     for label, v in clauses:
         vals.setdefault(label, []).append(v)
-    got = vals.get(ob.label)
+    got = vals.get(target.native_label(ob.label))
     detail = {"inputs": ob.model, "choices": ob.choices, "native_outcome": repr(nout)[:300],
               "clause": ob.label, "clause_value": repr(got), "ghost": {k: repr(v)[:200] for k, v in nctx.ghost.items()},
               "events": [repr(e)[:200] for e in nctx.events][:50]}
@@ -444,7 +471,50 @@ def replay_obligation(target, ob):
         return 'no-replay', dict(detail, reason="clause not produced natively")
     if any(v is False for v in got):
         return 'confirmed', detail
+    if target.abstracted:
+        # the counter-model interprets uninterpreted externs freely; look for a REAL failing input of the same
+        # path shape by randomised search over small string pools
+        found = search_witness(target, ob)
+        if found is not None:
+            return 'confirmed', found
+        return 'no-replay', dict(detail, reason="counter-model depends on the abstraction of an extern; randomised "
+                                 "search over concrete inputs found no failing input")
     return 'contradicted', detail
+
+
+def search_witness(target, ob, tries=4000):
+    import random
+    rng = random.Random(int(os.environ.get('VERIF_SEED', '0') or 0) * 7919 + 13)
+    names = sorted({v for v in ob.model.values() if isinstance(v, str) and v} |
+                   {k for v in ob.model.values() if isinstance(v, dict) for k in v} | {'A', 'B', 'PATH'})
+    names = [n for n in names if ':' not in n and '$' not in n][:6]
+    values = ['v', '', 'x/y'] + ['$%s' % n for n in names] + ['${%s}:z' % n for n in names] + ['a:$%s' % n for n in names]
+    want = target.native_label(ob.label)
+
+    def sample(v, name):
+        if isinstance(v, dict):
+            d = {}
+            for k in names:
+                if rng.random() < 0.5:
+                    d[k] = rng.choice(values)
+            for k in v:
+                if k not in names and rng.random() < 0.7:
+                    d[k] = v[k] if rng.random() < 0.5 else rng.choice(values)
+            return d
+        if isinstance(v, str):
+            return rng.choice(names) if rng.random() < 0.8 else v
+        return v
+    for i in range(tries):
+        inputs = {k: sample(v, k) for k, v in ob.model.items()}
+        try:
+            nctx, nst, nout, clauses = native_run(target, inputs, ob.choices)
+        except Exception:
+            continue
+        for label, val in clauses:
+            if label == want and val is False:
+                return {"inputs": inputs, "choices": ob.choices, "native_outcome": repr(nout)[:300], "clause": want,
+                        "clause_value": "[False]", "found_by": "randomised search, try %d" % i}
+    return None
 
 
 def verify_lemma(lemma, tier='quick'):
